@@ -791,6 +791,16 @@ def gen_supports(outdir):
     add("op_fragment_enc", "list (pystr * bool)", "[" + "; ".join(frows) + "]")
     add("op_idt_hashes", "list (pystr * list pystr)", "[" + "; ".join(hrows) + "]")
 
+    # ---- the scope values the provider knows (what a client without allowed_scopes of its own may be granted:
+    #      Scopes.get_allowed_scopes() of the real provider, i.e. the keys of its scope -> claims map), and
+    #      whether a request naming another scope value is refused or the value silently dropped
+    sh = server.context.scopes_handler
+    add("op_scopes", "list pystr", lst(strs(list(sh.get_allowed_scopes()), "Scopes.get_allowed_scopes()")))
+    duk = server.context.get_preference("deny_unknown_scopes")
+    if duk not in (None, True, False):
+        raise Untranslatable("provider preference deny_unknown_scopes = %r" % (duk,))
+    add("op_deny_unknown_scopes", "bool", "true" if duk else "false")
+
     # ---- probe 1b (real message class): which hash the relying party REQUIRES in an ID Token that arrives
     #      together with a code / an access token (oidc.AuthorizationResponse.verify)
     from cryptojwt.jwt import JWT as _JWT
